@@ -892,6 +892,51 @@ def _bool_expr(where, atoms, compares=None):
     return tr
 
 
+UNUSABLE_SQL = re.compile(
+    r"SELECT EXISTS \( SELECT 1 FROM dependency JOIN dynamic_dep ON dynamic_dep\.i = dependency\.i "
+    r"JOIN node ON node\.i = dependency\.source JOIN file ON file\.node = dependency\.source "
+    r"WHERE dependency\.sink = \? AND \( (?P<cond>.*) \) \)")
+
+
+def gen_unusable_dynamic_input(ev, uses):
+    """Step.has_unusable_dynamic_input (84081f2): EXISTS over the dynamic dependencies of the step of a
+    per-input condition on (node.detached, file.state); the condition is parsed with SqlBool.  When the
+    method does not exist (source before 84081f2) validate_dynamic_job must not use it; the per-input
+    condition then is the one of the commit that introduced it (unused by the decision)."""
+    stree = parse_module(f"{CORE}/step.py")
+    try:
+        fn = find_function(stree, "has_unusable_dynamic_input", "Step")
+    except TranslatorError:
+        if uses:
+            raise
+        cond = "(detached || (negb ((st =? %d) || (st =? %d))))" % (ev["FileState"]["CONFIRMED"], ev["FileState"]["BUILT"])
+        return ("(* Step.has_unusable_dynamic_input does not exist in this source; not used by validate_dynamic_job *)\n"
+                f"Definition unusable_dyn_input_gen (st : N) (detached : bool) : bool := {cond}.\n"
+                "Definition has_unusable_dynamic_input_in_source : bool := false.")
+    body = body_without_docstring(fn)
+    if not (len(body) == 2 and isinstance(body[0], ast.Assign) and ast.unparse(body[0].targets[0]) == "sql"
+            and isinstance(body[0].value, ast.JoinedStr)
+            and _norm(body[1]) == "return bool(self.db.execute(sql, (self.i,)).fetchone()[0])"):
+        raise TranslatorError("Step.has_unusable_dynamic_input: body is not `sql = f'...'; return bool(execute(sql, (self.i,)).fetchone()[0])`")
+    parts = []
+    for v in body[0].value.values:
+        if isinstance(v, ast.Constant):
+            parts.append(v.value)
+        else:
+            m = re.fullmatch(r"FileState\.(\w+)\.value", ast.unparse(v.value))
+            if not m or m.group(1) not in ev["FileState"]:
+                raise TranslatorError(f"Step.has_unusable_dynamic_input: unrecognised interpolation {ast.unparse(v.value)}")
+            parts.append(str(ev["FileState"][m.group(1)]))
+    sql = re.sub(r"\s+", " ", "".join(parts)).strip()
+    m = UNUSABLE_SQL.fullmatch(sql)
+    if not m:
+        raise TranslatorError(f"Step.has_unusable_dynamic_input: query shape changed: {sql[:300]}")
+    cond = SqlBool(m.group("cond"), {"node.detached": ("bool", "detached"), "file.state": ("num", "st")}).parse()
+    return ("(* Step.has_unusable_dynamic_input: EXISTS (dynamic dependency of the step whose source file satisfies this) *)\n"
+            f"Definition unusable_dyn_input_gen (st : N) (detached : bool) : bool := {cond}.\n"
+            "Definition has_unusable_dynamic_input_in_source : bool := true.")
+
+
 def gen_checking(ev):
     out = []
     S = ev["StepState"]
@@ -1006,24 +1051,33 @@ def gen_checking(ev):
         raise TranslatorError("validate_dynamic_job signature changed")
     VRET = "(reset, state_set, state, deferred)"
     vstates = []
+    # the `deferred` argument of set_state in validate_dynamic_job is a TRANSLATED expression: a
+    # constant (d760e3e: True; before: absent) or, since 84081f2 (fix of D39), the value of
+    # step.has_unusable_dynamic_input() in the transaction that records the outcome
+    VDEFERRED = {"None": "false", "False": "false", "True": "true",
+                 "step.has_unusable_dynamic_input()": "unusable_dyn"}
+    VSET_STATE = R(r"step\.set_state\(StepState\.(?P<s>\w+)"
+                   r"(?:, (?:deferred=)?(?P<d>True|False|step\.has_unusable_dynamic_input\(\)))?\)")
 
     def validate_set_state(m):
-        vstates.append((S[m.group("s")], {"None": "false", "False": "false", "True": "true"}[str(m.group("d"))]))
-        return set_state_rep("")(m)
+        d = VDEFERRED[str(m.group("d"))]
+        vstates.append((S[m.group("s")], d))
+        return f"let state_set := true in let state := {S[m.group('s')]} in let deferred := {d} in"
     t = Table("validate_dynamic_job", [
         ("run, new_hash = await self._new_run(job_i, step, inp_hashes, env_deps)", ""),
         ("return", ("return", VRET)),
         ("await self._outdated_dynamic(run, step_hash, new_hash)", ""),
         ("await self._reset_step_to_pending(step)", "let reset := true in"),
-        (SET_STATE, validate_set_state),
+        (VSET_STATE, validate_set_state),
         ("self._report_step_counts()", ""),
     ], [], final=VRET, inline_db=True,
         cond_fn=_bool_expr("validate_dynamic_job", {"new_hash is None": "(negb new_run_ok)",
                                                       "new_hash is not None": "new_run_ok"}, digests))
     out.append("(* Executor.validate_dynamic_job after _new_run: (reset to pending, set_state called, state, deferred).\n"
                "   Any statement outside the table (mark_completed, _run_command, record_run_started, ...) is a\n"
-               "   TranslatorError. *)\n"
-               "Definition validate_gen (new_run_ok inp_equal : bool) : bool * bool * N * bool :=\n"
+               "   TranslatorError.\n"
+               "   unusable_dyn = step.has_unusable_dynamic_input() evaluated in the transaction of the outcome. *)\n"
+               "Definition validate_gen (new_run_ok inp_equal unusable_dyn : bool) : bool * bool * N * bool :=\n"
                "  let reset := false in let state_set := false in let state := 0 in let deferred := false in\n  "
                + t.block(body_without_docstring(fn), None) + ".")
     if len(set(vstates)) != 1:
@@ -1031,7 +1085,8 @@ def gen_checking(ev):
     out.append("(* the `deferred` argument of the only set_state call of validate_dynamic_job (the branch taken when\n"
                "   the input digest is unchanged) *)\n"
                f"Definition validate_unchanged_state : N := {vstates[0][0]}.\n"
-               f"Definition validate_unchanged_deferred : bool := {vstates[0][1]}.")
+               f"Definition validate_unchanged_deferred_gen (unusable_dyn : bool) : bool := {vstates[0][1]}.")
+    out.append(gen_unusable_dynamic_input(ev, uses=vstates[0][1] == "unusable_dyn"))
 
     # try_skip_job, split at the output hashing (an await during which other actors run)
     fn = find_function(etree, "try_skip_job", "Executor")
